@@ -522,7 +522,11 @@ impl Driver {
                         self.fresh_name()
                     };
                     let mut op = json!({"op": "add_attr", "d": d, "n": n, "hint": rng.chance(p.hyb, 10)});
-                    if rng.chance(1, 2) {
+                    let is_anarchy = st.iter().any(|x| x.0 == d && x.1 == "A");
+                    if is_anarchy && rng.chance(1, 4) {
+                        // `after` has no effect in an anarchy, whatever it names
+                        op["after"] = json!(["zz", "a", "LOW", "gone"][rng.below(4)]);
+                    } else if rng.chance(1, 2) {
                         if invalid && rng.chance(1, 2) {
                             op["after"] = json!("zz");
                         } else if let Some(a) = rng.pick(&existing) {
